@@ -19,7 +19,7 @@ CHECKS = {
                       "exploration of the pool-level bodies (C17, C09, C13)",
         "rule": "one evaluation = one sharing configuration (K threads x repetitions) compared with the solo results",
         "assumptions": [],
-        "deadline": {"quick": 300, "thorough": 1800},
+        "deadline": {"quick": 600, "thorough": 2400},
         "stages": [
             {"name": "solvers", "timing_dependent": True, "harness": "c18_shared", "args": ["--stage", "solvers"], "share": 0.2,
              "what": "one shared solver instance, K threads minimising their own functions: bit-identical to solo"},
